@@ -43,8 +43,16 @@ type HarnessCfg struct {
 	Replay      *ReplayCfg        `json:"replay"`
 	Note        string            `json:"note"`
 	PanicIgnore []string          `json:"panic_ignore"`
+	LockRules   []LockRule        `json:"lock_rules"`
 	AssertFilter string           `json:"assert_filter"` // regexp: only assertion ids matching it are obligations of this harness
 	HarnessDir  string            `json:"harness_dir"`
+}
+
+// LockRule: every access to one of Fields of the tracked object Object must hold (one of) Locks.
+type LockRule struct {
+	Object string   `json:"object"`
+	Fields []string `json:"fields"`
+	Locks  []string `json:"locks"`
 }
 
 type ReplayCfg struct {
@@ -52,6 +60,7 @@ type ReplayCfg struct {
 	File string `json:"file"` // file in harness dir (a _test.go), injected by go test -overlay
 	Test string `json:"test"`
 	Tags string `json:"tags"`
+	Race bool   `json:"race"` // run under the race detector; a DATA RACE report confirms
 }
 
 type UnitCfg struct {
@@ -206,6 +215,7 @@ func vsLockHeld(p interface{}) bool
 func vsAnyLockHeld() bool
 func vsRunUntilBlocked(f func()) bool
 func vsSetLockHook(f func(lock string))
+func vsTrack(p interface{}, name string)
 `
 
 func loadProgram(cfg *PropCfg, hdir string) (*ssa.Program, []*ssa.Package, map[string]*ssa.Package) {
@@ -676,6 +686,53 @@ func (r *runner) discharge(h *HarnessCfg, res *HarnessResult, ex *Exec, solver *
 		r.mu.Unlock()
 		r.batchCheck(h, res, ex, solver, "panic", evs, check, timeout)
 	}
+	if len(h.LockRules) > 0 {
+		seen := map[string]bool{}
+		for _, a := range ex.accesses {
+			for _, rule := range h.LockRules {
+				if rule.Object != a.Obj {
+					continue
+				}
+				match := false
+				for _, f := range rule.Fields {
+					if f == a.Field {
+						match = true
+					}
+				}
+				if !match {
+					continue
+				}
+				held := false
+				for _, l := range rule.Locks {
+					for _, hl := range strings.Fields(a.Held) {
+						if hl == l {
+							held = true
+						}
+					}
+				}
+				if held {
+					continue
+				}
+				fnShort := a.Func
+				if j := strings.LastIndex(fnShort, "/"); j >= 0 {
+					fnShort = fnShort[j+1:]
+				}
+				id := fmt.Sprintf("unlocked-access:%s.%s@%s", a.Obj, a.Field, fnShort)
+				if seen[id] {
+					continue
+				}
+				seen[id] = true
+				r.mu.Lock()
+				res.Asserts++
+				res.distinctIDs[id+"@"+a.Case] = true
+				r.mu.Unlock()
+				check("assert", id, a.Pos, a.Case, a.PC)
+			}
+		}
+		r.mu.Lock()
+		res.Samples = append(res.Samples, map[string]interface{}{"accesses_logged": len(ex.accesses), "case": ex.curCase})
+		r.mu.Unlock()
+	}
 	if h.CheckBlocks {
 		// a thread that blocks while holding a lock is the violation (blocking-while-locked); parking without locks
 		// (the idle plotter) is normal
@@ -981,6 +1038,9 @@ func runReplay(hdir string, rc *ReplayCfg, cexPath string) (string, string) {
 	if rc.Tags != "" {
 		args = append(args, "-tags", rc.Tags)
 	}
+	if rc.Race {
+		args = append(args, "-race")
+	}
 	args = append(args, ".")
 	cmd := exec.Command("timeout", append([]string{"600", "go"}, args...)...)
 	cmd.Dir = pkgDir
@@ -988,6 +1048,10 @@ func runReplay(hdir string, rc *ReplayCfg, cexPath string) (string, string) {
 	out, _ := cmd.CombinedOutput()
 	s := string(out)
 	switch {
+	case rc.Race && strings.Contains(s, "WARNING: DATA RACE"):
+		return "confirmed", s
+	case rc.Race && strings.Contains(s, "VSREPLAY-RACE-RUN-COMPLETE"):
+		return "not-reproduced", s
 	case strings.Contains(s, "VSREPLAY-CONFIRMED"):
 		return "confirmed", s
 	case strings.Contains(s, "VSREPLAY-NOT-REPRODUCED"):
